@@ -90,7 +90,7 @@ MIN_COUNTS = {
     "solve_main_continues": 20,
     "exit_constructions": 35,
     "param_keys": 60,
-    "h_call_sites": 12,
+    "h_call_sites": 3,      # structurally necessary: the objective store, the sub-problem / criticality measure, the ratio test (today 17: most are copies of one expression)
     "save_point_sites": 10,
     "change_point_sites": 8,
 }
